@@ -37,7 +37,7 @@ var verifC01Builtins = [...]verifBuiltinUse{
 	{"sprintf", `sprintf("%d", 5)`},
 }
 
-const verifC01NumForms = 16
+const verifC01NumForms = 22
 const verifC01NumSites = 10
 
 // verifC01Site wraps the call expression c into a statement sequence.
@@ -106,6 +106,18 @@ func verifC01Program(form int, b verifBuiltinUse, site int) (src string, globalS
 		return use, false
 	case 15: // shadowed in a sibling function only
 		return "g := func(" + n + ") { return " + n + " }\ng(1)\n" + use, false
+	case 16: // defined in the try body, used in the catch block of the same statement
+		return "try { " + n + " := " + sf + "; throw \"boom\" } catch err { " + use + " }\nreturn \"none\"", false
+	case 17: // defined in the try body, used in the finally block
+		return "try { " + n + " := " + sf + "; " + n + "() } finally { " + use + " }\nreturn \"none\"", false
+	case 18: // defined in the catch block, used in the finally block
+		return "try { throw \"boom\" } catch err { " + n + " := " + sf + "; " + n + "() } finally { " + use + " }\nreturn \"none\"", false
+	case 19: // if-init scope
+		return "if " + n + " := " + sf + "; true { " + use + " }\nreturn \"none\"", false
+	case 20: // for-init scope
+		return "for " + n + " := " + sf + "; true; { " + use + " }\nreturn \"none\"", false
+	case 21: // nested block inside a function, used after an inner block closed
+		return "f := func() { " + n + " := " + sf + "; if true { x := 1; x++ }; " + use + " }\nreturn f()", false
 	}
 	return use, false
 }
